@@ -10,7 +10,7 @@ def run_c12(prop, tier, seed, replay=None):
     core.cargo_build()
     if replay:
         rp = json.load(open(replay))
-        if "line" in rp["instance"]:
+        if "line" in rp["instance"] or rp["instance"].get("dd"):
             from . import p_sample
             return p_sample.run(prop, tier, seed, replay)
         tp = os.path.join(wd, "in.ndjson")
@@ -39,7 +39,10 @@ def run_c12(prop, tier, seed, replay=None):
     path, runs, gstates, nlines = p_sample.gen_routing(tier, wd, seed)
     s2 = core.mt("replay-sample", path, os.path.join(wd, "sum2.json"), seed, {"points": 8 if tier == "quick" else 30, "boundary": 0})
     violations += [v for v in s2["violations"] if v["property"] == "C12"]
-    c = dict(s["counters"]); c["sample_binding_points"] = s2["counters"].get("outcome_Ok", 0); c["violations_C12"] = s2["counters"].get("violations_C12", 0) + len(rej)
+    # the quantile called with a user type of higher precision: p in [0,1) of THAT type
+    ddv, ddc = p_sample.dd_part("C12", tier, wd, seed, path)
+    violations += ddv
+    c = dict(s["counters"]); c["sample_binding_points"] = s2["counters"].get("outcome_Ok", 0); c["violations_C12"] = s2["counters"].get("violations_C12", 0) + len(rej) + ddc.get("violations_C12", 0); c["dd_gamma_calls"] = ddc.get("dd_gamma_calls", 0)
     cov = {
         "evaluations": s["evaluations"] + s2["evaluations"], "distinct_nontrivial": s["nontrivial"],
         "rule": "shape a: log-spaced 0.05..100 plus 1 +- 1e-8{0,1/2,1,2}, quarter and third values, branch thresholds; p: 0, subnormal, 2^-k, "
